@@ -43,7 +43,7 @@ CHECKS = {
         "category": "fault_enumeration",
     },
     "C07": {
-        "text": "For 2-3 concurrent pandas/polars validate calls (shared or distinct schemas, cold DataFrameModel, user config_context) every call must return or raise exactly what it does alone, and config plus every schema fingerprint must be unchanged afterwards, under every single-preemption interleaving of each listed workload (exhaustive for that layer at pandera call/return granularity), a two-preemption grid, Hypothesis-generated multi-segment schedules, and a cold-process family (one freshly started interpreter per schedule: the scheduled calls are the first validations of the process, so backend registration and lazy imports are inside the explored window). The harness owns the schedule (sys.settrace parked threads).",
+        "text": "For 2-3 concurrent pandas/polars validate calls (shared or distinct schemas, cold DataFrameModel, user config_context) every call must return or raise exactly what it does alone, and config plus every schema fingerprint must be unchanged afterwards, under every single-preemption interleaving of each listed workload (exhaustive for that layer at pandera call/return granularity), a two-preemption grid, Hypothesis-generated multi-segment schedules, an overlap family (two-preemption schedules that park both threads inside the same pandera function, at call/return granularity and at source-line granularity for short functions), and a cold-process family (one freshly started interpreter per schedule: the scheduled calls are the first validations of the process, so backend registration and lazy imports are inside the explored window). The harness owns the schedule (sys.settrace parked threads).",
         "design_ref": "DESIGN.md §2 C07",
         "note": "One thread runs at a time; the cold family covers single preemptions of two fixed workloads; preemption only at pandera call boundaries (not bytecodes); pandas/polars internals and the polars Rust pool are sequentialised; GIL builds only. Watchdog-stopped executions are inconclusive. One recorded known finding (module-global config context).",
         "technique": "deterministic schedule enumeration + Hypothesis schedules, differential against the solo run",
